@@ -271,6 +271,131 @@ let run_lightspec (prog : M.z list) (queries : string list) : string =
       | None -> pr "%c:noprogress" kind) queries in
   String.concat " " outs
 
+(* ---------- builder (C16), RTH conversion (C12), utilities (C20) *)
+let q_of_hex s = match fval_of_hex s with
+  | FFin (n, d) -> q_of_zz n d
+  | _ -> failwith "non-finite float where a finite one is required"
+
+let fnum_of_hex s = match fval_of_hex s with
+  | FNaN -> M.FNan | FNegInf -> M.FInf true | FPosInf -> M.FInf false
+  | FFin (n, d) -> M.FVal (q_of_zz n d)
+
+let show_fnum = function
+  | M.FNan -> "nan" | M.FInf true -> "-inf" | M.FInf false -> "inf" | M.FVal q -> string_of_q q
+
+let vec4_of_hex a b c d = { M.vx = q_of_hex a; M.vy = q_of_hex b; M.vz = q_of_hex c; M.vyaw = q_of_hex d }
+
+(* positions of a finished trajectory at the given times (ms), with the C01 tolerance *)
+let probe_positions (bytes : M.z list) (times_ms : int list) : string list =
+  match M.traj_init bytes with
+  | M.Ok tr ->
+    let segs = M.segments_prefix tr in
+    List.map (fun ms ->
+        (* the harness passes (float)ms / 1000.0f *)
+        let tq = M.fdiv (M.rnd32 (q_of_zz (Z.of_int ms) Z.one)) (q_of_zz (Z.of_int 1000) Z.one) in
+        match M.position_at tr (M.QFin tq) with
+        | M.Ok v -> pr "P:0:%s:%s" (show_vec4 v) (string_of_q (M.tol_at M.O segs tq))
+        | r -> "P:" ^ show_res_code (fun _ -> "0") r) times_ms
+  | r -> ["T:" ^ show_res_code (fun _ -> "0") r]
+
+let run_build (scale : string) (flags : string) (calls : string) : string =
+  match M.builder_init (z_of_string scale) (z_of_string flags) with
+  | M.Ok b0 ->
+    let b = ref b0 in
+    let cum = ref 0 in
+    let marks = ref [] in
+    let outs = ref ["init:0"] in
+    let emit s = outs := s :: !outs in
+    let size () = List.length (!b).M.bb_bytes in
+    List.iter (fun call ->
+        match String.split_on_char ':' call with
+        | ["S"; x; y; z; w] ->
+          (match M.set_start_position !b (vec4_of_hex x y z w) with
+           | M.Ok b' -> b := b'; emit (pr "S:0:%d" (size ()))
+           | r -> emit (pr "S:%s:%d" (show_res_code (fun _ -> "0") r) (size ())))
+        | ["L"; x; y; z; w; d] ->
+          (match M.append_line !b (vec4_of_hex x y z w) (z_of_string d) with
+           | M.Ok b' -> b := b'; cum := !cum + int_of_string d; marks := !cum :: !marks; emit (pr "L:0:%d" (size ()))
+           | r -> emit (pr "L:%s:%d" (show_res_code (fun _ -> "0") r) (size ())))
+        | ["H"; d] ->
+          (match M.hold_position_for !b (z_of_string d) with
+           | M.Ok b' -> b := b'; cum := !cum + int_of_string d; marks := !cum :: !marks; emit (pr "H:0:%d" (size ()))
+           | r -> emit (pr "H:%s:%d" (show_res_code (fun _ -> "0") r) (size ())))
+        | ["F"] ->
+          let (bytes, b') = M.finish !b in
+          b := b';
+          emit ("F:0:" ^ hex_of_bytes bytes);
+          List.iter emit (probe_positions bytes (List.rev !marks));
+          cum := 0; marks := []
+        | _ -> emit ("?" ^ call))
+      (String.split_on_char ';' calls);
+    emit ("buf:" ^ hex_of_bytes (!b).M.bb_bytes);
+    String.concat " " (List.rev !outs)
+  | r -> "init:" ^ show_res_code (fun _ -> "0") r
+
+let run_rth2traj (w : string list) : string =
+  match w with
+  | [time; action; dur; tx; ty; alt; pre; post; neck; neckd; sx; sy; sz; sw; probes] ->
+    let e = { M.re_time = fnum_of_hex time; M.re_action = z_of_string action; M.re_duration = fnum_of_hex dur;
+              M.re_target = (q_of_hex tx, q_of_hex ty); M.re_altitude = q_of_hex alt;
+              M.re_pre_delay = fnum_of_hex pre; M.re_post_delay = fnum_of_hex post;
+              M.re_neck = q_of_hex neck; M.re_neck_duration = fnum_of_hex neckd } in
+    (match M.rth_to_trajectory e (vec4_of_hex sx sy sz sw) with
+     | M.Ok bytes ->
+       let dur = (match M.traj_init bytes with
+           | M.Ok tr -> show_res_code string_of_z (M.total_duration_msec tr) | _ -> "?") in
+       String.concat " " (("ok:" ^ hex_of_bytes bytes) :: ("dur=" ^ dur) :: probe_positions bytes (ints_of_csv probes))
+     | r -> show_res_code (fun _ -> "0") r)
+  | _ -> "bad-args"
+
+let run_util (w : string list) : string =
+  match w with
+  | ["travel"; d; v; a] -> show_fnum (M.travel_time (fnum_of_hex d) (fnum_of_hex v) (fnum_of_hex a))
+  | ["scale"; s; x; y; z] -> show_res_code string_of_z (M.scale_update (z_of_string s) (q_of_hex x) (q_of_hex y) (q_of_hex z))
+  | ["msec"; d] -> show_res_code string_of_z (M.msec_of_sec (fnum_of_hex d))
+  | ["expand"; lo; hi; off] -> let (a, b) = M.interval_expand (q_of_hex lo) (q_of_hex hi) (q_of_hex off) in pr "%s,%s" (string_of_q a) (string_of_q b)
+  | ["interp"; r1; g1; b1; r2; g2; b2; ratio] ->
+    let c = M.interp_rgb { M.red = z_of_string r1; M.green = z_of_string g1; M.blue = z_of_string b1 }
+        { M.red = z_of_string r2; M.green = z_of_string g2; M.blue = z_of_string b2 } (q_of_hex ratio) in
+    pr "%s,%s,%s" (string_of_z c.M.red) (string_of_z c.M.green) (string_of_z c.M.blue)
+  | ["rgbw"; meth; r; g; b; p1; p2; p3] ->
+    let c = { M.red = z_of_string r; M.green = z_of_string g; M.blue = z_of_string b } in
+    let o = (match meth with
+        | "min" -> M.rgbw_min_sub c
+        | "fixed" -> M.rgbw_fixed c (z_of_string p1)
+        | _ -> M.rgbw_reference c { M.red = z_of_string p1; M.green = z_of_string p2; M.blue = z_of_string p3 }) in
+    pr "%s,%s,%s,%s" (string_of_z o.M.wr) (string_of_z o.M.wg) (string_of_z o.M.wb) (string_of_z o.M.ww)
+  | ["buf"; kind; init; ops] ->
+    let start = (match kind with
+        | "init" -> M.Ok (M.buf_init (nat_of_int (int_of_string init)))
+        | "bytes" -> M.buf_init_from_bytes (bytes_of_hex init)
+        | _ -> M.Ok (M.buf_init_view (bytes_of_hex init))) in
+    (match start with
+     | M.Ok b0 ->
+       let b = ref b0 in
+       let st () = pr "%d/%d" (int_of_nat (M.bf_size !b)) (int_of_nat (!b).M.bf_cap) in
+       let outs = ref ["init:0:" ^ st ()] in
+       List.iter (fun op ->
+           if op = "" || op = "-" then () else
+           let arg = String.sub op 1 (String.length op - 1) in
+           let r = (match op.[0] with
+               | 'a' -> M.buf_append !b (bytes_of_hex arg)
+               | 'z' -> M.buf_extend_zeros !b (nat_of_int (int_of_string arg))
+               | 'r' -> M.buf_resize !b (nat_of_int (int_of_string arg))
+               | 'c' -> M.buf_clear !b
+               | 'p' -> M.buf_prune !b
+               | _ -> M.Ok (M.buf_fill !b (z_of_string arg))) in
+           (match r with
+            | M.Ok b' -> b := b'; outs := (pr "%c:0:%s" op.[0] (st ())) :: !outs
+            | e -> outs := (pr "%c:%s:%s" op.[0] (show_res_code (fun _ -> "0") e) (st ())) :: !outs))
+         (String.split_on_char ',' ops);
+       String.concat " " (List.rev (("data:" ^ hex_of_bytes (!b).M.bf_data) :: !outs))
+     | e -> "init:" ^ show_res_code (fun _ -> "0") e)
+  | ["fop"; op; a; b] ->
+    let x = q_of_hex a and y = q_of_hex b in
+    string_of_q (match op with "add" -> M.fadd x y | "sub" -> M.fsub x y | "mul" -> M.fmul x y | "div" -> M.fdiv x y | _ -> M.fsqrt x)
+  | _ -> "bad-args"
+
 (* ---------- dispatch *)
 let run_case (w : string list) : string =
   match w with
@@ -294,6 +419,9 @@ let run_case (w : string list) : string =
   | ["rgbenc"; r; g; b] ->
     pr "ok %s" (string_of_z (M.encode_rgb565 { M.red = z_of_string r; M.green = z_of_string g; M.blue = z_of_string b }))
   | ["file"; r; b; script] -> run_file_script (route_of r) (bytes_of_hex b) script
+  | ["build"; sc; fl; calls] -> run_build sc fl calls
+  | "rth2traj" :: rest -> run_rth2traj rest
+  | "util" :: rest -> run_util rest
   | ["light"; mode; b; qs] -> run_light mode (bytes_of_hex b) (if qs = "-" then [] else String.split_on_char ',' qs)
   | ["lightspec"; b; qs] -> run_lightspec (bytes_of_hex b) (if qs = "-" then [] else String.split_on_char ',' qs)
   | ["yaw"; mode; b; qs] -> run_yaw mode (bytes_of_hex b) (if qs = "-" then [] else String.split_on_char ',' qs)
